@@ -248,6 +248,25 @@ A.atomic_mass : 1000.0
         b = _norm(Ip.getattr(Ip.getattr(cpp, "tabulation"), attr))
         chk.ob("C15.O3", "[Tabulation] %s given through a placeholder" % attr, a == b, site=cls.site_of("tabulation"), found=a, expect=b,
                key="C15.O3|tabulation.%s" % attr)
+    # the file is the only source of placeholder values: whatever the package hands to the library as `vars` would take
+    # precedence over a [Variables] entry of the same name
+    supplied = {}
+    for J, cp_ in ((It, cpt), (Ip, cpp)):
+        rawp = J.getattr(cp_, "raw_config_parser")
+        supplied.update(getattr(rawp, "attrs", {}).get("@vars", {}))
+    chk.ob("C15.O3", "the package supplies no placeholder values of its own to the parser (a [Variables] entry of the same name would "
+                     "be overruled)", not supplied, site=P.cls(CP, "_RawConfigParser").site(), found=sorted(supplied) or None,
+           expect="values come from the file only", key="C15.O3|package-supplied-values")
+    for name in sorted(supplied)[:3]:
+        Iv, cpv = build(P, "[Variables]\n%s : 7.25\n[Pair]\nA-B : as.constant ${%s}\n" % (name, name))
+        try:
+            got = _norm(Iv.getattr(cpv, "pair"))
+        except RaiseSignal as e:
+            got = e.exc
+        Iw, cpw = build(P, "[Pair]\nA-B : as.constant 7.25\n")
+        want = _norm(Iw.getattr(cpw, "pair"))
+        chk.ob("C15.O3", "[Variables] %s : 7.25 used as ${%s} equals writing 7.25" % (name, name), got == want,
+               site=P.cls(CP, "_RawConfigParser").site(), found=got, expect=want, key="C15.O3|shadowed|%s" % name)
     # unresolvable placeholder -> configuration error
     cfg = P.cls("atsim.potentials.config._common", "ConfigurationException")
     Ib, cpb = build(P, "[Pair]\nA-B : as.buck ${nope} 0.3 0\n")
